@@ -705,16 +705,17 @@ impl<T: PPGEvaluatorStrategy> PPGEvaluator<T> {
             }
         }
 
+        // false if one of the outputs of job_id is now produced by a job of a different name
+        // (the map is keyed by single outputs, and FGs turn into MFGs and vice versa)
         let filter_if_renamed = |job_id: &str| -> bool {
-            if job_id.contains(":::") {
-                let last_time = multi_parts_to_jobs.get(job_id);
-                match last_time {
-                    Some(last_time) => last_time == job_id,
-                    None => true, //not present.
+            for part in job_id.split(":::") {
+                if let Some(now) = multi_parts_to_jobs.get(part) {
+                    if now != job_id {
+                        return false;
+                    }
                 }
-            } else {
-                return true;
             }
+            true
         };
 
         let mut out = self.history.clone();
@@ -731,9 +732,31 @@ impl<T: PPGEvaluatorStrategy> PPGEvaluator<T> {
                                 self.dag.edge_weight(*node_idx_a, *node_idx_b).is_some()
                             }
                             _ => {
-                                //if it's from a multi-output job that was producing different
-                                //stuff before,
-                                filter_if_renamed(job_id_a)
+                                if !filter_if_renamed(job_id_b) {
+                                    // the downstream has a new name. Its own history is
+                                    // dropped below, nobody will ask for this again
+                                    false
+                                } else if !filter_if_renamed(job_id_a) {
+                                    //if it's from a multi-output job that was producing different
+                                    //stuff before,
+                                    //this is what the downstream is compared against
+                                    //(try_finding_renamed_multi_output_job),
+                                    //so it has to stay until the downstream has been recorded
+                                    //against the new name (see 'record the edges' below)
+                                    match node_idx_b {
+                                        Some(node_idx_b) => {
+                                            let job_b = &self.jobs[*node_idx_b];
+                                            !(job_b.history_output.is_some()
+                                                || job_b.state
+                                                    == JobState::Ephemeral(
+                                                        JobStateEphemeral::FinishedSkipped,
+                                                    ))
+                                        }
+                                        None => true,
+                                    }
+                                } else {
+                                    true
+                                }
                             }
                         }
                     } else {
